@@ -43,8 +43,16 @@ static int run_cc (const char *cc_opt, const char *src, const char *so, char *er
   FILE *f;
   int st;
   snprintf (errfile, sizeof errfile, "%s.err", so);
-  snprintf (cmd, sizeof cmd, "gcc -std=gnu11 %s -fPIC -shared -w -fno-fast-math -ffp-contract=off %s -o %s %s 2> %s",
-      cc_opt, inc, so, src, errfile);
+  /* gcc's own temporary files go to the scratch directory too (it is emptied when a check starts) */
+  {
+    char dir[500];
+    char *slash;
+    snprintf (dir, sizeof dir, "%s", so);
+    slash = strrchr (dir, '/');
+    if (slash) *slash = 0;
+    snprintf (cmd, sizeof cmd, "TMPDIR=%s gcc -std=gnu11 %s -fPIC -shared -w -fno-fast-math -ffp-contract=off %s -o %s %s 2> %s",
+        dir, cc_opt, inc, so, src, errfile);
+  }
   st = system (cmd);
   err[0] = 0;
   f = fopen (errfile, "r");
